@@ -243,13 +243,7 @@ impl TryFrom<&str> for FeelDateTime {
                         if let Ok(min) = min_match.as_str().parse::<u8>() {
                           if let Some(sec_match) = captures.name("seconds") {
                             if let Ok(sec) = sec_match.as_str().parse::<u8>() {
-                              let mut fractional = 0.0;
-                              if let Some(frac_match) = captures.name("fractional") {
-                                if let Ok(frac) = frac_match.as_str().parse::<f64>() {
-                                  fractional = frac;
-                                }
-                              }
-                              let nanos = (fractional * 1e9).trunc() as u64;
+                              let nanos = captures.name("fractional").map_or(0, |frac_match| nanos_from_fraction(frac_match.as_str()));
                               if is_valid_date(year, month, day) {
                                 let date = FeelDate::new(year, month, day);
                                 if let Some(zone) = FeelZone::from_captures(&captures) {
@@ -418,6 +412,19 @@ impl FeelDateTime {
   }
 }
 
+/// Returns the number of nanoseconds denoted by the fractional part of seconds,
+/// given as a dot followed by decimal digits; digits beyond the ninth are truncated.
+pub(crate) fn nanos_from_fraction(fraction: &str) -> u64 {
+  let digits = fraction.trim_start_matches('.').bytes().take(9);
+  let mut nanos = 0_u64;
+  let mut scale = 1_000_000_000_u64;
+  for digit in digits {
+    scale /= 10;
+    nanos += (digit - b'0') as u64 * scale;
+  }
+  nanos
+}
+
 /// Parses time literal.
 fn parse_time_literal(s: &str) -> Result<FeelTime> {
   if let Some(captures) = RE_TIME.captures(s) {
@@ -427,13 +434,7 @@ fn parse_time_literal(s: &str) -> Result<FeelTime> {
           if let Ok(min) = min_match.as_str().parse::<u8>() {
             if let Some(sec_match) = captures.name("seconds") {
               if let Ok(sec) = sec_match.as_str().parse::<u8>() {
-                let mut fractional = 0.0;
-                if let Some(frac_match) = captures.name("fractional") {
-                  if let Ok(frac) = frac_match.as_str().parse::<f64>() {
-                    fractional = frac;
-                  }
-                }
-                let nanos = (fractional * 1e9).trunc() as u64;
+                let nanos = captures.name("fractional").map_or(0, |frac_match| nanos_from_fraction(frac_match.as_str()));
                 if let Some(zone) = FeelZone::from_captures(&captures) {
                   if is_valid_time(hour, min, sec) {
                     return Ok(FeelTime(hour, min, sec, nanos, zone));
